@@ -610,6 +610,27 @@ impl Kanata {
         self.sequence_always_on = cfg.options.sequence_always_on;
         self.sequence_input_mode = cfg.options.sequence_input_mode;
         self.sequence_timeout = cfg.options.sequence_timeout;
+        // A mouse button pressed by a held custom action is released by the release handler of
+        // that state. The state is about to be dropped with the old layout (only the
+        // one-idle-second fallback gets here with such a state), so release the button now.
+        let held_btns: Vec<Btn> = self
+            .layout
+            .b()
+            .states
+            .iter()
+            .filter_map(|s| match s {
+                State::Custom { value, .. } => Some(*value),
+                _ => None,
+            })
+            .flat_map(|acts| acts.iter())
+            .filter_map(|a| match a {
+                CustomAction::Mouse(btn) => Some(*btn),
+                _ => None,
+            })
+            .collect();
+        for btn in held_btns {
+            self.kbd_out.release_btn(btn)?;
+        }
         self.layout = cfg.layout;
         // Effects of held custom actions are ended by their release handlers, which ran off the
         // states of the old layout. Those states are gone now, so end the effects here.
